@@ -1,6 +1,6 @@
 (* C10 — message-layer reactions follow the RFC 7252 type rules.
    Only statements here; every proof is [exact <lemma of Proofs/C10.v>] (or a vm_compute witness). *)
-From Verif Require Import Lib.Py Lib.Tactics Model.C10 Proofs.C10 Proofs.C10Acks.
+From Verif Require Import Lib.Py Lib.Tactics Model.C10 Proofs.C10 Proofs.C10Acks Proofs.C10Live.
 Open Scope Z_scope.
 
 (* 1. The reaction table: type x code class x token known x received on multicast, for every state reachable-or-not that satisfies
@@ -80,31 +80,120 @@ Example C10_acked_at_most_once_nonvacuous :   (* the hypotheses hold in the init
   Forall (ev_ok 0 7) [Wait 100000; Fire; Respond 0 69 None [5]] /\
   acks 0 7 (outputs_of (snd (run (fst (dispatch_message s r m)) [Wait 100000; Fire; Respond 0 69 None [5]]))) = 1%nat.
 Proof. split; [apply BInv_init|]. vm_compute. repeat split; repeat constructor. Qed.
-(*    AT LEAST ONCE is PARTIAL: the three single-step facts below hold for every state (the opportunity is recorded and its timer armed;
-      whichever of answer / timer comes first emits the ACK under the request's message ID and removes the opportunity), but the
-      history-level glue (the opportunity and its timer persist until then; the clock never passes a due timer) is not proved — it needs
-      a second invariant relating opportunities and pending empty-ACK handles. It is exercised by the correspondence run and the witnesses.
-      Side condition (DESIGN.md O3): no earlier request with the same token from that peer is still unacknowledged. *)
-Theorem C10_con_request_acked_once_partial_arms : forall s r m s' o, mtype m = CON -> path m = 0 -> 1 <= code m <= 7 ->
+(*    EXACTLY ONCE over whole histories.  Second invariant [AInv] (proved along every history from the initial state): every pending
+      empty-ACK handle is not overdue (now <= due), has a handle number below the counter and is the handle stored in exactly one
+      recorded opportunity; every opportunity has its pending handle; handle numbers are unique.
+      Time in the model: [Fire] runs the pending handle with the least (due, creation number) and sets the clock to max(now, due);
+      [Wait d] advances the clock by d but never past the due time of a pending handle.  "The clock has passed arrival +
+      EMPTY_ACK_DELAY" is [now s + EMPTY_ACK_DELAY < now s'].
+      Shutdown is outside the model (no event for it; C18) — the theorems speak about histories without Context.shutdown, and without
+      transport errors (MessageManager.dispatch_error is not modelled either). *)
+Theorem C10_AInv_invariant : forall es m0 t0 s os, run (init m0 t0) es = (s, os) -> AInv s.
+Proof. intros es m0 t0 s os H. eapply AInv_run; [exact H|apply AInv_init]. Qed.
+Print Assumptions C10_AInv_invariant.
+Example C10_AInv_nonvacuous :      (* a reachable state with two recorded opportunities and their two pending handles *)
+  let s := fst (run (init 0 0) [Recv (uni 0) (creq CON 7 [1] 0 None); Wait 5; Recv (uni 1) (creq CON 7 [1] 0 None)]) in
+  AInv s /\ length (piggy s) = 2%nat /\ map due (atimers s) = [100000; 100005].
+Proof.
+  split; [|vm_compute; split; reflexivity].
+  destruct (run (init 0 0) [Recv (uni 0) (creq CON 7 [1] 0 None); Wait 5; Recv (uni 1) (creq CON 7 [1] 0 None)]) as [s os] eqn:E.
+  exact (AInv_run _ _ _ _ E (AInv_init 0 0)).
+Qed.
+(* for every history [pre] from the initial state and every continuation [post]: a fresh CON request (any request code, any resource,
+   whatever its handler does or fails to do) has received at most one ACK-typed message under its message ID at any time, and exactly
+   one as soon as the clock has passed arrival + EMPTY_ACK_DELAY — hence none afterwards.  Hypotheses: not a duplicate; O3 (the
+   (peer, token) pair is not in use by an unacknowledged request, and no later CON request reuses it: [ev_live]); no other message
+   from that peer carries this message ID and the application sends no ACK-typed requests ([ev_ok]). *)
+Theorem C10_con_request_acked_exactly_once : forall pre m0 t0 s os0 r m s1 o1 post s' os,
+  run (init m0 t0) pre = (s, os0) ->
+  mtype m = CON -> is_request (code m) = true ->
+  aget zz_eqb (recent s) (rpeer r, mid m) = None ->
+  aget pk_eqb (piggy s) (rpeer r, token m) = None ->
+  cnt (rpeer r) (mid m) (piggy s) = 0%nat ->
+  dispatch_message s r m = (s1, o1) -> run s1 post = (s', os) ->
+  Forall (ev_ok (rpeer r) (mid m)) post -> Forall (ev_live (rpeer r) (token m)) post ->
+  let n := acks (rpeer r) (mid m) (o1 ++ outputs_of os) in
+  (n <= 1)%nat /\ (now s + EMPTY_ACK_DELAY < now s' -> n = 1%nat).
+Proof. exact con_request_acked_exactly_once. Qed.
+Print Assumptions C10_con_request_acked_exactly_once.
+Example C10_acked_exactly_once_nonvacuous :   (* all hypotheses hold for a request arriving in the middle of other traffic *)
+  let pre := [Request 1 None false; Recv (uni 1) (creq CON 3 [9] 1 None); Wait 7] in
+  let s := fst (run (init 0 0) pre) in let r := uni 0 in let m := creq CON 7 [1] 0 None in
+  let post := [Recv (uni 0) (creq NON 8 [2] 1 None); Wait 100000; Fire; Wait 1; Respond 0 69 None [5]] in
+  let s1 := fst (dispatch_message s r m) in
+  aget zz_eqb (recent s) (rpeer r, mid m) = None /\ aget pk_eqb (piggy s) (rpeer r, token m) = None /\
+  cnt (rpeer r) (mid m) (piggy s) = 0%nat /\
+  Forall (ev_ok (rpeer r) (mid m)) post /\ Forall (ev_live (rpeer r) (token m)) post /\
+  now s + EMPTY_ACK_DELAY < now (fst (run s1 post)) /\
+  acks 0 7 (snd (dispatch_message s r m) ++ outputs_of (snd (run s1 post))) = 1%nat.
+Proof.
+  vm_compute. repeat split; try reflexivity; repeat constructor; try (intros H; discriminate H); try (intros [_ H]; discriminate H); try (intros [H _]; discriminate H).
+Qed.
+(* piggy-backed iff the response is ready strictly before arrival + EMPTY_ACK_DELAY (for the slow resource, whose handler k0 answers when
+   the harness says so): see the comment at con_response_timing in Proofs/C10Live.v.  [strict]: no other request reuses the
+   (peer, token) pair and handler k0 has not answered yet. *)
+Theorem C10_con_response_timing : forall pre m0 t0 s os0 r m s1 o1 es1 s2 os1,
+  run (init m0 t0) pre = (s, os0) ->
+  mtype m = CON -> path m = 0 -> 1 <= code m <= 7 ->
+  aget zz_eqb (recent s) (rpeer r, mid m) = None -> aget pk_eqb (piggy s) (rpeer r, token m) = None ->
+  cnt (rpeer r) (mid m) (piggy s) = 0%nat ->
+  dispatch_message s r m = (s1, o1) -> run s1 es1 = (s2, os1) ->
+  let k0 := next_srv s in let d := now s + EMPTY_ACK_DELAY in
+  Forall (strict r m k0) es1 -> Forall (ev_ok (rpeer r) (mid m)) es1 ->
+  In (StartHandler k0) o1 /\
+  (now s2 < d ->
+     acks (rpeer r) (mid m) (o1 ++ outputs_of os1) = 0%nat /\
+     forall c rnr pl s3 o3, is_response c = true -> handler_respond s2 k0 c rnr pl = (s3, o3) ->
+       let eff := match rnr with Some v => Some v | None => nr m end in
+       let a := {| a_mtype := None; a_code := c; a_token := token m; a_nr := eff; a_obs := None; a_payload := pl |} in
+       (find_srv (incoming s2) k0 = None /\ o3 = []) \/
+       (no_response_of a = false /\ o3 = [Send (as_response_address r) (mk_wire a ACK (mid m))]) \/
+       (no_response_of a = true /\ o3 = [Send (as_response_address r) (empty_msg ACK (mid m))])) /\
+  ((1 <= acks (rpeer r) (mid m) (o1 ++ outputs_of os1))%nat -> d <= now s2).
+Proof. exact con_response_timing. Qed.
+Print Assumptions C10_con_response_timing.
+Example C10_response_timing_nonvacuous :
+  let s := init 0 0 in let r := uni 0 in let m := creq CON 7 [1] 0 None in
+  let es1 := [Recv (uni 0) (creq NON 8 [2] 1 None); Wait 99999; Request 1 None false] in
+  Forall (strict r m (next_srv s)) es1 /\ Forall (ev_ok (rpeer r) (mid m)) es1 /\
+  now (fst (run (fst (dispatch_message s r m)) es1)) < now s + EMPTY_ACK_DELAY.
+Proof. vm_compute. repeat split; repeat constructor; try (intros [_ H]; discriminate H); try (intros H; discriminate H). Qed.
+(* after the ACK (no opportunity left under the request's (peer, token)): the handler's answer is a separate message with a fresh
+   message ID from our own counter and the request's token — CON for a CON request from a unicast peer, NON otherwise; suppressed by
+   No-Response it is not sent; a CON may wait in the NSTART backlog (C14) *)
+Theorem C10_respond_after_ack : forall s r m k0 key sv c rnr pl s' o,
+  find_srv (incoming s) k0 = Some (key, sv) -> sv_remote sv = r -> sv_req sv = m ->
+  aget pk_eqb (piggy s) (rpeer r, token m) = None -> is_response c = true ->
+  handler_respond s k0 c rnr pl = (s', o) ->
+  let eff := match rnr with Some v => Some v | None => nr m end in
+  let a := {| a_mtype := None; a_code := c; a_token := token m; a_nr := eff; a_obs := None; a_payload := pl |} in
+  let t := select_mtype None (as_response_address r) (Some (mtype m)) in
+  (no_response_of a = true /\ o = []) \/
+  (no_response_of a = false /\
+   (o = [Send (as_response_address r) (mk_wire a t (next_mid s))] \/ (o = [] /\ t = CON /\ amem Z.eqb (backlogs s) (rpeer r) = true))).
+Proof. exact respond_after_ack. Qed.
+Print Assumptions C10_respond_after_ack.
+(*    The single-step facts behind these theorems, for every state: *)
+Theorem C10_con_request_step_arms : forall s r m s' o, mtype m = CON -> path m = 0 -> 1 <= code m <= 7 ->
   aget pk_eqb (piggy s) (rpeer r, token m) = None -> _process_request s r m = (s', o) ->
   aget pk_eqb (piggy s') (rpeer r, token m) = Some (mid m, seq s) /\
   atimers s' = atimers s ++ [{| due := now s + EMPTY_ACK_DELAY; tid := seq s; kind := EmptyAck r (token m) |}] /\
   (forall x, In x o -> exists k, x = StartHandler k \/ x = CancelHandler k).
 Proof. exact request_arms_timer. Qed.
-Print Assumptions C10_con_request_acked_once_partial_arms.
+Print Assumptions C10_con_request_step_arms.
 (* the response is ready first: it travels in the ACK under the request's message ID; opportunity and timer are removed *)
-Theorem C10_con_request_acked_once_partial_piggyback : forall s r a mon rq pmid h,
+Theorem C10_con_request_step_piggyback : forall s r a mon rq pmid h,
   is_response (a_code a) = true -> aget pk_eqb (piggy s) (rpeer r, a_token a) = Some (pmid, h) -> no_response_of a = false ->
   exists s', send_message s r a mon rq = (s', [Send r (mk_wire a ACK pmid)], None) /\
              piggy s' = adel pk_eqb (piggy s) (rpeer r, a_token a) /\ atimers s' = cancel (atimers s) h.
 Proof. exact send_message_piggyback. Qed.
-Print Assumptions C10_con_request_acked_once_partial_piggyback.
+Print Assumptions C10_con_request_step_piggyback.
 (* the timer fires first: an empty ACK under the request's message ID; the opportunity is removed *)
-Theorem C10_con_request_acked_once_partial_timeout : forall s r tok pmid h, aget pk_eqb (piggy s) (rpeer r, tok) = Some (pmid, h) ->
+Theorem C10_con_request_step_timeout : forall s r tok pmid h, aget pk_eqb (piggy s) (rpeer r, tok) = Some (pmid, h) ->
   exists s', on_timeout s r tok = (s', [Send (as_response_address r) (empty_msg ACK pmid)]) /\
              aget pk_eqb (piggy s') (rpeer r, tok) = None.
 Proof. exact on_timeout_acks. Qed.
-Print Assumptions C10_con_request_acked_once_partial_timeout.
+Print Assumptions C10_con_request_step_timeout.
 (* ... after which the response is separate: fresh message ID from our own counter, the request's token, NON for a NON request or a
    multicast peer and CON otherwise (a CON may first wait in the NSTART backlog, C14) *)
 Theorem C10_separate_response : forall s r a mon rq s' o e,
